@@ -312,6 +312,25 @@ func laMaps(w *World, r *EngineResult) {
 						continue
 					}
 				}
+				// a table that nothing outside this loop looks at is the loop's own
+				// accumulator (definitions first, aliases that look them up later): entries
+				// of earlier iterations are meant to be seen. What the rule is about is a
+				// table that also serves a wider scope.
+				if mk, isMake := m.(*ssa.MakeMap); isMake && mk.Referrers() != nil {
+					outside := false
+					for _, ref := range *mk.Referrers() {
+						if _, dbg := ref.(*ssa.DebugRef); dbg {
+							continue
+						}
+						if !l.body[ref.Block()] {
+							outside = true
+						}
+					}
+					if !outside {
+						r.holds("LA-map", fnKey(fn), construct, "the table is made right before the loop and used nowhere else: it is the loop's own accumulator", pos)
+						continue
+					}
+				}
 				r.violated("LA-map", fnKey(fn), construct, "the table handed to "+fnKey(reader.Call.StaticCallee())+" is written inside the loop but made outside it (a map assigned from another variable is the same map): what one iteration enters is seen by the look-ups of every later iteration", pos)
 			}
 		}
